@@ -50,16 +50,26 @@ fn place_j<'tcx>(tcx: TyCtxt<'tcx>, body: &Body<'tcx>, p: &Place<'tcx>) -> J {
     J::Obj(vec![("l", i(p.local.as_u32())), ("p", arr(proj))])
 }
 
-fn const_j<'tcx>(tcx: TyCtxt<'tcx>, c: &Const<'tcx>) -> J {
+fn const_j<'tcx>(tcx: TyCtxt<'tcx>, body: &Body<'tcx>, c: &Const<'tcx>) -> J {
     let t = c.ty();
     let mut v = vec![("ty", s(ty_str(t)))];
     if let ty::FnDef(did, _) = t.kind() {
         v.push(("fn", s(def_path(tcx, *did))));
     }
     // scalar value if cheaply available
+    let mut have = false;
     if let Const::Val(rustc_middle::mir::ConstValue::Scalar(sc), _) = c {
         if let rustc_middle::mir::interpret::Scalar::Int(int) = sc {
             v.push(("val", s(format!("{}", int.to_bits_unchecked()))));
+            have = true;
+        }
+    }
+    if !have && (t.is_integral() || t.is_bool() || t.is_char()) {
+        if let Const::Ty(..) = c {
+            let env = ty::TypingEnv::post_analysis(tcx, body.source.def_id());
+            if let Some(int) = c.try_eval_scalar_int(tcx, env) {
+                v.push(("val", s(format!("{}", int.to_bits_unchecked()))));
+            }
         }
     }
     if let Const::Unevaluated(u, _) = c {
@@ -72,7 +82,7 @@ fn operand_j<'tcx>(tcx: TyCtxt<'tcx>, body: &Body<'tcx>, o: &Operand<'tcx>) -> J
     match o {
         Operand::Copy(p) => J::Obj(vec![("copy", place_j(tcx, body, p))]),
         Operand::Move(p) => J::Obj(vec![("move", place_j(tcx, body, p))]),
-        Operand::Constant(c) => J::Obj(vec![("const", const_j(tcx, &c.const_))]),
+        Operand::Constant(c) => J::Obj(vec![("const", const_j(tcx, body, &c.const_))]),
         _ => J::Obj(vec![("other", s("runtime_checks"))]),
     }
 }
